@@ -46,10 +46,11 @@ pub fn gen_case(prop: &str, rng: &mut Rng) -> Case {
     let config = Config {
         flavour,
         unique: rng.chance(2, 5),
-        initial: val(rng),
+        initial: if rng.chance(1, 6) { crate::track::OV(0, 0, 0) } else { val(rng) },
         audit_every_step: rng.chance(if prop == "C02" { 3 } else { 1 }, 4),
         counts: flavour == Flavour::Sync || prop == "C19",
-        adopt_unexpected_upgrade: prop == "C19",
+        adopt_unexpected_upgrade: prop == "C19" || (prop == "C01" && rng.chance(1, 2)),
+        reopen_on_adopt: prop == "C01",
         same_waker_mask: if rng.chance(1, 2) { rng.below(256) as u8 } else { 0 },
         teardown: rng.next_u64() >> 16,
     };
